@@ -98,6 +98,77 @@ theorem histOkB_iff : ∀ (ops : List WOp) (sv : Server), histOkB sv ops = true 
     | create ns a => simp [reqOkB, createOkB_iff]
     | modify ns p chg => simp [reqOkB, modifyOkB_iff]
     | delete ns p => simp [reqOkB]
+    | deleteClass ns cn => simp [reqOkB]
+
+/-! ### DeleteClass -/
+
+theorem deleteAll_preserves : ∀ (ps : List Path) {sv sv' : Server} {ns : Name}, WInv sv.repo →
+    deleteAll sv ns ps = .ok sv' → WInv sv'.repo
+  | [], sv, sv', ns, hinv, h => by simp [deleteAll] at h; subst h; exact hinv
+  | p :: ps, sv, sv', ns, hinv, h => by
+    simp only [deleteAll] at h
+    cases hd : deleteAssoc sv ns p with
+    | error e => simp [hd] at h
+    | ok sv1 =>
+      simp only [hd] at h
+      exact deleteAll_preserves ps (delete_preserves hinv hd) h
+
+/-- removing classes does not touch the instance stores -/
+theorem removeClasses_preserves {r : Repo} (hinv : WInv r) (ns : Name) (names : List Name) :
+    WInv (removeClasses r ns names) := by
+  have hmem : ∀ S', S' ∈ removeClasses r ns names → ∃ S ∈ r, S'.name = S.name ∧ S'.insts = S.insts ∧
+      (S' = if ieq S.name ns then { S with classes := S.classes.filter (fun c => !names.any (fun n => ieq n c.name)) } else S) := by
+    intro S' hS'
+    obtain ⟨S, hS, rfl⟩ := List.mem_map.mp hS'
+    refine ⟨S, hS, ?_, ?_, rfl⟩ <;> by_cases hc : ieq S.name ns = true <;> simp [hc]
+  constructor
+  · intro S' hS' T' hT' hn
+    obtain ⟨S, hS, hSn, _, hSe⟩ := hmem S' hS'
+    obtain ⟨T, hT, hTn, _, hTe⟩ := hmem T' hT'
+    have : S = T := hinv.uniq S hS T hT (by rw [← hSn, ← hTn]; exact hn)
+    subst this
+    rw [hSe, hTe]
+  · intro S' hS' a ha
+    obtain ⟨S, hS, hSn, hSi, _⟩ := hmem S' hS'
+    rw [hSn]; exact hinv.keyed S hS a (hSi ▸ ha)
+  · intro S' hS' a ha b hb
+    obtain ⟨S, hS, _, hSi, _⟩ := hmem S' hS'
+    exact hinv.nodup S hS a (hSi ▸ ha) b (hSi ▸ hb)
+  · intro S' hS' a ha
+    obtain ⟨S, hS, hSn, hSi, _⟩ := hmem S' hS'
+    rw [hSn]; exact hinv.loc S hS a (hSi ▸ ha)
+  · intro S' hS' T' hT' a ha b hb hpk hr he
+    obtain ⟨S, hS, _, hSi, hSe⟩ := hmem S' hS'
+    obtain ⟨T, hT, _, hTi, hTe⟩ := hmem T' hT'
+    have : S = T := hinv.conf S hS T hT a (hSi ▸ ha) b (hTi ▸ hb) hpk hr he
+    subst this
+    rw [hSe, hTe]
+  · intro S' hS' a ha n hn
+    obtain ⟨S, hS, _, hSi, _⟩ := hmem S' hS'
+    obtain ⟨T, hT, hTn, a', ha', hpk⟩ := hinv.shadow S hS a (hSi ▸ ha) n hn
+    refine ⟨_, List.mem_map.mpr ⟨T, hT, rfl⟩, ?_, a', ?_, hpk⟩
+    · by_cases hc : ieq T.name ns = true <;> simp [hc, hTn]
+    · by_cases hc : ieq T.name ns = true <;> simp [hc, ha']
+  · intro S' hS' T' hT' a ha b hb
+    obtain ⟨S, hS, _, hSi, _⟩ := hmem S' hS'
+    obtain ⟨T, hT, _, hTi, _⟩ := hmem T' hT'
+    exact hinv.coh S hS T hT a (hSi ▸ ha) b (hTi ▸ hb)
+
+/-- DeleteClass of an association class keeps the discipline (no condition on the request) -/
+theorem deleteClass_preserves {sv sv' : Server} {ns cn : Name} (hinv : WInv sv.repo)
+    (h : deleteClassAssoc sv ns cn = .ok sv') : WInv sv'.repo := by
+  unfold deleteClassAssoc at h
+  cases hS : findNs sv.repo ns with
+  | none => simp [hS] at h
+  | some S =>
+    simp only [hS] at h
+    split at h
+    · cases h
+    · split at h
+      · cases h
+      · rename_i sv1 hd
+        cases h
+        exact removeClasses_preserves (deleteAll_preserves _ hinv hd) _ _
 
 /-- every stored reference end can be fetched: no host, an existing namespace, an existing instance
     (what CreateInstance / ModifyInstance check for the ends they store; DeleteInstance of a referenced
